@@ -106,3 +106,10 @@ P("C05", "srcfacts+mirfacts+rules",
   "(outer hole, inner constructor) pairs the operand's binding class fits (finite 8×8 per renderer); type-argument lists are split only by "
   "the bracket-depth-aware splitter; all five sites go through parse_type_structure and a visitor entry.",
   "the README/statement table is the oracle for serde's JSON shapes; TypeScript's `[]`-over-`|` precedence", a=True, b=True)
+
+P("C10", "srcfacts+rules",
+  "static analysis: string-shape extraction (SV) of ZodSchemaBuilder::render_type vs the plain visitor with per-constructor shape agreement over identical recursive holes (SHAPE/SIBLING), literal scan for non-JSON Zod constructors (TABLE), template key/name hole comparison (TPATH)",
+  "Constructor-wise agreement of the two compositional renderers (array/set -> z.array, map -> z.record(k, v), tuple -> z.tuple([..]), Optional -> "
+  "omittable, primitives, custom -> {name}Schema, enums -> z.enum([literals])) implies agreement at every depth; key and name holes of the Zod "
+  "templates equal the plain ones per role; nothing on the parameter path constructs z.set/z.map/z.date/... .  Zod's own runtime semantics are not claimed.",
+  "the statement's 'Option rendered as omittable' is taken as the oracle for Optional", a=False, b=True)
